@@ -171,6 +171,10 @@ def rejection_cases():
     for v in (256, -256, 300, 32767, -32768):
         for pos in ("first", "middle", "last"):
             out.append((v, pos))
+    # values that only fit a wider element type and whose low 16 bits look like a legal weight (a narrowing conversion would hide them)
+    for v in (65536, 65543, -65536, -65529, 65536 + 255, (1 << 31) - 1, -(1 << 31), (1 << 17) + 3):
+        for pos in ("first", "last"):
+            out.append((v, pos))
     return out
 
 
@@ -191,22 +195,26 @@ def check_rejection(v, pos):
         accepted.append("mlw_codec.encode")
     except Exception:
         pass
-    W = np.asarray(seq, dtype=np.int16).reshape(2, 2, 2, 2)
-    try:
-        mc.reorder_encode(8, 8, W, 8, False, False, 8, 8, 8)
-        accepted.append("mlw_codec.reorder_encode")
-    except Exception:
-        pass
-    try:
-        wc.encode_weights(Accelerator.Ethos_U55_128, W, (1, 1), 8, 8, False, api.NpuBlockTraversal.DEPTH_FIRST)
-        accepted.append("weight_compressor.encode_weights")
-    except Exception:
-        pass
-    try:
-        api.npu_encode_weights(api.NpuAccelerator.Ethos_U55_128, W, (1, 1), 8, 8, False, api.NpuBlockTraversal.DEPTH_FIRST)
-        accepted.append("api.npu_encode_weights")
-    except Exception:
-        pass
+    wide = not -32768 <= v <= 32767
+    dtypes = [np.int16] if not wide else [np.int32, np.int64]
+    for dt in dtypes:
+        W = np.asarray(seq, dtype=dt).reshape(2, 2, 2, 2) if not (v < 0 and np.dtype(dt).kind == "u") else None
+        tag = "" if not wide else "[%s volume]" % np.dtype(dt).name
+        try:
+            mc.reorder_encode(8, 8, W, 8, False, False, 8, 8, 8)
+            accepted.append("mlw_codec.reorder_encode" + tag)
+        except Exception:
+            pass
+        try:
+            wc.encode_weights(Accelerator.Ethos_U55_128, W, (1, 1), 8, 8, False, api.NpuBlockTraversal.DEPTH_FIRST)
+            accepted.append("weight_compressor.encode_weights" + tag)
+        except Exception:
+            pass
+        try:
+            api.npu_encode_weights(api.NpuAccelerator.Ethos_U55_128, W, (1, 1), 8, 8, False, api.NpuBlockTraversal.DEPTH_FIRST)
+            accepted.append("api.npu_encode_weights" + tag)
+        except Exception:
+            pass
     return accepted
 
 
